@@ -246,6 +246,36 @@ func c04Templates() []c04Tmpl {
 		c04Tmpl{name: "panic-arg", types: []string{"string"}, plain: []Expr{StrLit{V: "boom"}},
 			body: func(o []Expr) []Stmt { return []Stmt{Panic{X: o[0]}} }},
 	)
+	// expressions written as statements (the value is not used): the operands are evaluated all the same
+	es := func(e Expr) []Stmt { return []Stmt{ExprStmt{X: e}} }
+	T = append(T,
+		c04Tmpl{name: "stmt-arith", types: []string{"int", "int"}, plain: ints(17, 5),
+			body: func(o []Expr) []Stmt { return es(Binary{Op: "+", L: o[0], R: o[1]}) }},
+		c04Tmpl{name: "stmt-arith-nested", types: []string{"int", "int", "int"}, plain: ints(2, 3, 4),
+			body: func(o []Expr) []Stmt {
+				return es(Binary{Op: "*", L: Group{X: Binary{Op: "-", L: o[0], R: o[1]}}, R: o[2]})
+			}},
+		c04Tmpl{name: "stmt-compare", types: []string{"int", "int"}, plain: ints(3, 4),
+			body: func(o []Expr) []Stmt { return es(Binary{Op: "==", L: o[0], R: o[1]}) }},
+		c04Tmpl{name: "stmt-compare-string", types: []string{"string", "string"}, plain: []Expr{StrLit{V: "u"}, StrLit{V: "v"}},
+			body: func(o []Expr) []Stmt { return es(Binary{Op: "!=", L: o[0], R: o[1]}) }},
+		c04Tmpl{name: "stmt-logical", types: []string{"bool", "bool"}, plain: []Expr{BoolLit{true}, BoolLit{false}},
+			body: func(o []Expr) []Stmt { return es(Binary{Op: "&&", L: o[0], R: o[1]}) }},
+		c04Tmpl{name: "stmt-not", types: []string{"bool"}, plain: []Expr{BoolLit{true}},
+			body: func(o []Expr) []Stmt { return es(Unary{Op: "!", X: o[0]}) }},
+		c04Tmpl{name: "stmt-group", types: []string{"int"}, plain: ints(6),
+			body: func(o []Expr) []Stmt { return es(Group{X: o[0]}) }},
+		c04Tmpl{name: "stmt-concat", types: []string{"string", "string"}, plain: []Expr{StrLit{V: "a"}, StrLit{V: "b"}},
+			body: func(o []Expr) []Stmt { return es(Binary{Op: "+", L: o[0], R: o[1]}) }},
+		c04Tmpl{name: "stmt-itoa", types: []string{"int"}, plain: ints(12),
+			body: func(o []Expr) []Stmt { return es(Itoa{X: o[0]}) }},
+		c04Tmpl{name: "stmt-len", types: []string{"string"}, plain: []Expr{StrLit{V: "four"}},
+			body: func(o []Expr) []Stmt { return es(Len{X: o[0]}) }},
+		// (a slice element as a statement, `sl[2]`, is read as the start of an element assignment and rejected:
+		// not an accepted program, so not in this alphabet)
+		c04Tmpl{name: "stmt-string-range", types: []string{"int", "int"}, plain: ints(1, 4),
+			body: func(o []Expr) []Stmt { return es(Substr{X: Var{"str"}, Lo: o[0], Hi: o[1]}) }},
+	)
 	return T
 }
 
